@@ -231,13 +231,20 @@ def run(ctx):
                 {"scheme": scheme, "kernel": list(els), "stage": stage, "what": what}))
     for (scheme, els), o in out[:3] + out[len(out) // 2:len(out) // 2 + 2]:
         res.add_sample({"model": scheme, "kernel": list(els), "totals_per_stage": o["outcome"]})
+    # (b) real instructions on the shipped models
+    from mc.checks import c01_shipped
+    res.merge(c01_shipped.run_part(ctx))
     res.evaluations = res.states
     res.rule = ("all kernels of length <=2 (thorough: <=3 over a reduced alphabet) over every form "
                 "of the synthetic 3-port models (3 port naming schemes; 1-3 micro-ops with equal/"
                 "nested/overlapping/disjoint port sets; cycles 1, 2, 0.5; alternative assignments; "
                 "throughput-0 form; comment and label lines) plus a model with load/store "
                 "multipliers; each kernel observed after uniform assignment, one and two "
-                "optimisation passes; non-trivial = kernels of length >= 2")
+                "optimisation passes; (b) on shipped models (quick: zen1, icx, tx2, a64fx; thorough: "
+                "all): one synthesised instruction per distinct micro-op list (thorough: per "
+                "entry), all kernels of length 1 and all ordered pairs over at most 40 of them, "
+                "against the micro-op list of the entry selected by the reference matcher; "
+                "non-trivial = kernels of length >= 2")
     res.bounds = {"kernel_length": 3 if ctx.thorough else 2, "ports": 3,
                   "forms_per_scheme": {k: len(v["forms"]) for k, v in _M.items() if v["forms"]}}
     res.assumptions = [
@@ -249,8 +256,11 @@ def run(ctx):
 
 
 def replay(ctx, payload):
-    _setup(ctx)
     r = payload["replay"]
+    if r.get("part") == "shipped-models":
+        from mc.checks import c01_shipped
+        return c01_shipped.replay(ctx, payload)
+    _setup(ctx)
     item, o = _check_kernel((r["scheme"], tuple(r["kernel"])))
     for b in o["bad"]:
         print("stage %s element %s: %s" % (b[0], b[1], b[3]))
